@@ -329,7 +329,7 @@ def main(ctx):
     reg = sorted(glob.glob(os.path.join(common.VERIF_DIR, "regress", "C05", "*.json")))
     ctx.pmap(regress_worker, [(p, known) for p in reg])
     n = 40 if quick else 800
-    stop_at = time.time() + (75 if quick else 1500)
+    stop_at = time.time() + (75 if quick else 900)
     ctx.pmap(worker, [(ctx.seed * 100003 + i, n, known, stop_at, 4 if quick else 6) for i in range(common.NPROC)])
     ctx.rule = ("case = (generated program, 2-3 optimisation configurations incl. -O3); per configuration a joint walk of the baseline and the "
                 "optimised abstract machine over every input up to length 4 (quick) / 6 (thorough) over <= 6 byte-class representatives "
